@@ -190,6 +190,9 @@ func (e *evaluator) wantType(t Term) string {
 		}
 		var p []string
 		for _, b := range t.Sub {
+			if isNullBranch(b) {
+				continue // a `null` branch makes the union nullable, see hasNullBranch
+			}
 			p = append(p, e.wantType(b))
 		}
 		return strings.Join(p, "|")
@@ -207,6 +210,21 @@ func (e *evaluator) resolve(t Term) Term {
 		t = target
 	}
 	return t
+}
+
+func isNullBranch(t Term) bool { return t.K == "scalar" && t.A == "null" }
+
+// hasNullBranch: a union with a `null` branch admits null, exactly like a nullable type.
+func hasNullBranch(t Term) bool {
+	if t.K != "disj" {
+		return false
+	}
+	for _, b := range t.Sub {
+		if isNullBranch(b) {
+			return true
+		}
+	}
+	return false
 }
 
 func typeMatches(want, got string) bool {
@@ -230,6 +248,7 @@ func (e *evaluator) eval(t Term, v any, path string, chain []string, sl slotKind
 		nullable = nullable || rt.Nullable
 		t = rt
 	}
+	nullable = nullable || hasNullBranch(t)
 	class := classOf(chain)
 	if t.K == "scalar" && t.A == "any" {
 		return // any value, null included
@@ -448,7 +467,7 @@ func (e *evaluator) typeName(t Term, deep bool) string {
 			name = "discriminated union"
 		}
 	}
-	if t.Nullable {
+	if t.Nullable || hasNullBranch(rt) {
 		name += "?"
 	}
 	switch t.Default {
